@@ -53,7 +53,8 @@ pub fn spec_for(property: &str) -> Option<CheckSpec> {
         "C01" => CheckSpec {
             property: "C01".into(),
             level: "exploration",
-            profiles: vec![p("seq", 6), p("seq-manyversions", 3), p("seq-maint", 2)],
+            profiles: vec![p("seq", 12), p("seq-manyversions", 6), p("seq-maint", 4), p("seq-deepindex", 1)],
+            thorough_extra: vec![],
             quick_runs: 8_000,
             thorough_runs: 400_000,
             quick_budget_s: 60,
@@ -67,6 +68,7 @@ pub fn spec_for(property: &str) -> Option<CheckSpec> {
             property: "C02".into(),
             level: "exploration",
             profiles: vec![p("seq", 6), p("seq-manyversions", 2), p("seq-maint", 2)],
+            thorough_extra: vec![],
             quick_runs: 8_000,
             thorough_runs: 400_000,
             quick_budget_s: 60,
@@ -79,7 +81,8 @@ pub fn spec_for(property: &str) -> Option<CheckSpec> {
         "C03" => CheckSpec {
             property: "C03".into(),
             level: "fault_enumeration",
-            profiles: vec![p("restart", 6), p("restart-sweep", 3), p("seq", 1)],
+            profiles: vec![p("restart", 12), p("restart-sweep", 6), p("seq", 2), p("seq-deepindex", 1)],
+            thorough_extra: vec![p("restart-sweep-full", 4)],
             quick_runs: 5_000,
             thorough_runs: 200_000,
             quick_budget_s: 75,
@@ -92,7 +95,8 @@ pub fn spec_for(property: &str) -> Option<CheckSpec> {
         "C04" => CheckSpec {
             property: "C04".into(),
             level: "exploration",
-            profiles: vec![p("seq-maint", 8), p("seq-filter", 2), p("seq-maint+forcerace", 1)],
+            profiles: vec![p("seq-maint", 16), p("seq-filter", 4), p("seq-maint+forcerace", 2), p("seq-deepindex", 1)],
+            thorough_extra: vec![],
             quick_runs: 8_000,
             thorough_runs: 400_000,
             quick_budget_s: 60,
@@ -106,6 +110,7 @@ pub fn spec_for(property: &str) -> Option<CheckSpec> {
             property: "C07".into(),
             level: "exploration",
             profiles: vec![p("seq", 2), p("seq-maint", 2), p("restart", 1), p("crash-kill", 2), p("crash-power", 1), p("iofault", 2), p("cancel", 1)],
+            thorough_extra: vec![],
             quick_runs: 8_000,
             thorough_runs: 400_000,
             quick_budget_s: 60,
@@ -119,6 +124,7 @@ pub fn spec_for(property: &str) -> Option<CheckSpec> {
             property: "C10".into(),
             level: "exploration",
             profiles: vec![p("seq-filter", 6), p("seq-maint", 2), p("seq", 2)],
+            thorough_extra: vec![],
             quick_runs: 8_000,
             thorough_runs: 400_000,
             quick_budget_s: 60,
@@ -131,12 +137,13 @@ pub fn spec_for(property: &str) -> Option<CheckSpec> {
         "C12" => CheckSpec {
             property: "C12".into(),
             level: "exploration",
-            profiles: vec![p("seq", 4), p("seq-maint", 4), p("seq-filter", 1)],
+            profiles: vec![p("seq", 4), p("seq-maint", 4), p("seq-filter", 1), p("conc", 3)],
+            thorough_extra: vec![],
             quick_runs: 8_000,
             thorough_runs: 400_000,
             quick_budget_s: 60,
             thorough_budget_s: 600,
-            nontrivial_rule: "monitor over the ordered I/O tap with the dirty-byte limit drawn from {0,1,100,4096,1MiB,32MiB}: (a) a record is written into a blob only after a sync covering its header; (b) the header rewrite that sets an index's written bit comes after a sync of the blob covering the blob size recorded in that header; (c) after explicit fsyncdata Ok (no concurrent writer) and after a successful try_close_active_blob/close (active blob observed at a quiescent point) written length = synced length of that blob; (d) at quiescent points (no simulated job in flight, no I/O for three 2 ms windows) un-synced bytes of the active blob <= limit. Non-trivial = >= 3 data operations and at least one index marked complete or one quiescent dirty-bound check; distinct = distinct I/O event signature",
+            nontrivial_rule: "monitor over the ordered I/O tap (sequential profiles and concurrent clients, where writes land while a background sync is in flight) with the dirty-byte limit drawn from {0,1,100,4096,1MiB,32MiB}: (a) a record is written into a blob only after a sync covering its header; (b) the header rewrite that sets an index's written bit comes after a sync of the blob covering the blob size recorded in that header; (c) after explicit fsyncdata Ok (no concurrent writer) and after a successful try_close_active_blob/close (active blob observed at a quiescent point) written length = synced length of that blob; (d) at quiescent points (no simulated job in flight, no I/O for three 2 ms windows) un-synced bytes of the active blob <= limit. Non-trivial = >= 3 data operations and at least one index marked complete or one quiescent dirty-bound check; distinct = distinct I/O event signature",
             nontrivial: nt_sync,
             assumptions: a,
             expected_probes: vec!["index_marked_complete", "dirty_bound_checked"],
@@ -145,6 +152,7 @@ pub fn spec_for(property: &str) -> Option<CheckSpec> {
             property: "C15".into(),
             level: "exploration",
             profiles: vec![p("seq", 4), p("seq-maint", 4), p("seq-filter", 1), p("restart", 1), p("crash-kill", 2)],
+            thorough_extra: vec![],
             quick_runs: 8_000,
             thorough_runs: 400_000,
             quick_budget_s: 60,
